@@ -4,6 +4,7 @@ CONSTANTS
   Runtimes = {"threaded"}
   MaxReq = 1
   Kinds = {"close", "keep", "ws"}
+  SigTwice = FALSE
   Dev = {"ListenerLeak"}
 SPECIFICATION Spec
 INVARIANTS Inv_PortFree
